@@ -435,6 +435,19 @@ func c10RunOnce(s *c10Scn, addr string, imp *c10Imp) error {
 				if i%s.Conns != ci {
 					continue
 				}
+				if ph := s.Reqs[i].Phase; ph > 0 {
+					// one request at a time, when the wall clock's millisecond part reaches the scripted phase
+					now := time.Now()
+					d := time.Duration(ph)*time.Millisecond - time.Duration(now.Nanosecond())
+					if d < 0 {
+						d += time.Second
+					}
+					time.Sleep(d)
+					if _, err := conns[ci].Write(s.Reqs[i].Pkg); err != nil {
+						setErr(err)
+					}
+					continue
+				}
 				if s.UDP {
 					if _, err := conns[ci].Write(s.Reqs[i].Pkg); err != nil {
 						setErr(err)
@@ -576,88 +589,100 @@ func c10ChildMain(inPath, outPath string) {
 		os.WriteFile(outPath+".tmp", pb, 0o644)
 		os.Rename(outPath+".tmp", outPath+".partial")
 	}
+	runScn := func(s *c10Scn) {
+		addr := tcpAddr
+		if s.UDP {
+			addr = udpAddr
+		}
+		hasPing := false
+		for k := range s.Reqs {
+			if s.Reqs[k].Func == "tars_ping" {
+				hasPing = true
+			}
+		}
+		if hasPing {
+			pingMu.Lock()
+			defer pingMu.Unlock()
+		}
+		for try := 1; try <= 3; try++ {
+			if try > 1 && atomic.LoadInt32(&persistent) >= 2 {
+				break // two scenarios have already failed three times in a row: no point in re-running every other one
+			}
+			s.Tries = try
+			if wrap != nil {
+				wrap.mu.Lock()
+				wrap.pre, wrap.ev = map[int32]int32{}, map[int32][]byte{}
+				for k := range s.Reqs {
+					wrap.pre[s.Reqs[k].ID] = s.Reqs[k].Pre
+				}
+				wrap.mu.Unlock()
+			}
+			if err := c10RunOnce(s, addr, imp); err != nil {
+				s.Err = err.Error()
+				continue
+			}
+			s.Err = ""
+			if wrap != nil {
+				// every Invoke of this scenario has returned by now or does so shortly: wait for the R events
+				for k := 0; k < 400; k++ {
+					wrap.mu.Lock()
+					done := true
+					for i := range s.Reqs {
+						ev := wrap.ev[s.Reqs[i].ID]
+						if len(ev) == 0 || ev[len(ev)-1] != 'R' && !(len(ev) >= 2 && ev[len(ev)-2] == 'R') {
+							done = false
+						}
+					}
+					wrap.mu.Unlock()
+					if done {
+						break
+					}
+					time.Sleep(10 * time.Millisecond)
+				}
+				wrap.mu.Lock()
+				for i := range s.Reqs {
+					s.Reqs[i].Events = string(wrap.ev[s.Reqs[i].ID])
+				}
+				wrap.mu.Unlock()
+			}
+			fs := c10Monitor(s)
+			retry := false
+			for _, f := range fs {
+				if f.Timing {
+					retry = true
+				}
+			}
+			if !retry {
+				break
+			}
+			if try == 3 {
+				atomic.AddInt32(&persistent, 1)
+			}
+			if try < 3 {
+				for _, f := range fs {
+					if f.Timing {
+						s.Retried = append(s.Retried, fmt.Sprintf("try %d: %s: %s", try, f.Sig, f.Desc))
+					}
+				}
+			}
+		}
+	}
+	// first the scenarios that must find the server idle, one at a time; then the rest, concurrently
 	for i := range batch {
+		if batch[i].Exclusive {
+			runScn(&batch[i])
+		}
+	}
+	for i := range batch {
+		if batch[i].Exclusive {
+			continue
+		}
 		wg.Add(1)
 		sem <- struct{}{}
 		go func(s *c10Scn) {
 			defer wg.Done()
 			defer func() { <-sem }()
-			addr := tcpAddr
-			if s.UDP {
-				addr = udpAddr
-			}
-			hasPing := false
-			for k := range s.Reqs {
-				if s.Reqs[k].Func == "tars_ping" {
-					hasPing = true
-				}
-			}
-			if hasPing {
-				pingMu.Lock()
-				defer pingMu.Unlock()
-			}
-			for try := 1; try <= 3; try++ {
-				if try > 1 && atomic.LoadInt32(&persistent) >= 2 {
-					break // two scenarios have already failed three times in a row: no point in re-running every other one
-				}
-				s.Tries = try
-				if wrap != nil {
-					wrap.mu.Lock()
-					wrap.pre, wrap.ev = map[int32]int32{}, map[int32][]byte{}
-					for k := range s.Reqs {
-						wrap.pre[s.Reqs[k].ID] = s.Reqs[k].Pre
-					}
-					wrap.mu.Unlock()
-				}
-				if err := c10RunOnce(s, addr, imp); err != nil {
-					s.Err = err.Error()
-					continue
-				}
-				s.Err = ""
-				if wrap != nil {
-					// every Invoke of this scenario has returned by now or does so shortly: wait for the R events
-					for k := 0; k < 400; k++ {
-						wrap.mu.Lock()
-						done := true
-						for i := range s.Reqs {
-							ev := wrap.ev[s.Reqs[i].ID]
-							if len(ev) == 0 || ev[len(ev)-1] != 'R' && !(len(ev) >= 2 && ev[len(ev)-2] == 'R') {
-								done = false
-							}
-						}
-						wrap.mu.Unlock()
-						if done {
-							break
-						}
-						time.Sleep(10 * time.Millisecond)
-					}
-					wrap.mu.Lock()
-					for i := range s.Reqs {
-						s.Reqs[i].Events = string(wrap.ev[s.Reqs[i].ID])
-					}
-					wrap.mu.Unlock()
-				}
-				fs := c10Monitor(s)
-				retry := false
-				for _, f := range fs {
-					if f.Timing {
-						retry = true
-					}
-				}
-				if !retry {
-					break
-				}
-				if try == 3 {
-					atomic.AddInt32(&persistent, 1)
-				}
-				if try < 3 {
-					for _, f := range fs {
-						if f.Timing {
-							s.Retried = append(s.Retried, fmt.Sprintf("try %d: %s: %s", try, f.Sig, f.Desc))
-						}
-					}
-				}
-			}
+			runScn(s)
 		}(&batch[i])
 	}
 	wg.Wait()
